@@ -69,12 +69,23 @@ def _limits():
     os.setsid()
 
 
+# harnesses behind the harness crate's feature `gibbs` (struct literals of the repository's Gibbs types); when the crate
+# does not compile against the current tree, every other harness is rebuilt and run without that feature
+NO_GIBBS = {"on": False}
+
+
+def is_gibbs_harness(harness):
+    return harness.startswith("c05_") or "gibbs" in harness
+
+
 def _kani_cmd(harness, slot, playback=False, extra=()):
     cmd = [
         "cargo", "kani", "--harness", "proofs::" + harness, "--exact", "-Z", "stubbing", "--features", "hooks",
         "--no-overflow-checks",
         "--target-dir", os.path.join(CACHE, "kani-target-%d" % slot),
     ]
+    if NO_GIBBS["on"] and not is_gibbs_harness(harness):
+        cmd.insert(2, "--no-default-features")
     if playback:
         cmd += ["-Z", "concrete-playback", "--concrete-playback=print"]
     cmd += list(extra)
@@ -145,6 +156,15 @@ def run_kani(harness, slot, timeout, playback=False, nocover=False, extra=()):
             rc = -9
     with open(logf, errors="replace") as fh:
         text = fh.read()
+    if ("could not compile `mmk`" in text and not NO_GIBBS["on"] and not is_gibbs_harness(harness) and not timed_out
+            and not os.environ.get("MMK_NO_FALLBACK")):
+        # the harness crate does not compile against this tree: retry without the Gibbs struct-literal harnesses
+        log("  [%s] harness crate does not compile with the `gibbs` harnesses; retrying without them" % harness)
+        NO_GIBBS["on"] = True
+        r = run_kani(harness, slot, timeout, playback, nocover, extra)
+        if "could not compile `mmk`" in r["text"]:
+            NO_GIBBS["on"] = False
+        return r
     r = parse_kani(text)
     r.update({"rc": rc, "timed_out": timed_out, "wall": time.time() - t0, "log": logf, "text": text})
     return r
@@ -162,7 +182,12 @@ def build_replay(profile):
         cmd = ["cargo", "build", "--offline", "--bin", "replay", "--features", "hooks", "--target-dir", REPLAY_TARGET]
         if profile == "release":
             cmd.append("--release")
+        if NO_GIBBS["on"]:
+            cmd.append("--no-default-features")
         p = subprocess.run(cmd, cwd=KDIR, env=env_offline(), stdout=subprocess.PIPE, stderr=subprocess.STDOUT, text=True)
+        if p.returncode != 0 and not NO_GIBBS["on"]:
+            p = subprocess.run(cmd + ["--no-default-features"], cwd=KDIR, env=env_offline(), stdout=subprocess.PIPE,
+                               stderr=subprocess.STDOUT, text=True)
         ok = p.returncode == 0
         if not ok:
             log("replay build (%s) failed:\n%s" % (profile, p.stdout[-3000:]))
@@ -318,8 +343,12 @@ def _run_unit(out, prop, unit, slot, lock):
         out.solver_s += r["time"] or 0.0
     if r["timed_out"] or r["rc"] not in (0, 1) or r["error_status"] or not (r["successful"] or r["failed"]):
         with lock:
-            out.inconclusive.append("%s: no solver verdict (timeout=%s rc=%s error=%s) log %s" % (
-                unit.name, r["timed_out"], r["rc"], r["error_status"], r["log"]))
+            why = ""
+            if "could not compile `mmk`" in r.get("text", ""):
+                m = re.search(r"^error(?:\[E\d+\])?: ([^\n]+)", r["text"], re.M)
+                why = " -- the harness does not compile against this tree (%s)" % (m.group(1)[:160] if m else "compile error")
+            out.inconclusive.append("%s: no solver verdict (timeout=%s rc=%s error=%s)%s log %s" % (
+                unit.name, r["timed_out"], r["rc"], r["error_status"], why, r["log"]))
             ev["verdict"] = "no-verdict"
             out.units.append(ev)
         return
